@@ -3,10 +3,10 @@
 From Coq Require Import List NArith.
 From Coq.Strings Require Import Byte.
 From Coq Require Import Extraction ExtrOcamlBasic.
-From GI Require Import Lib.Bytes Lib.Utf8 Lib.Utf8Trim Txtar.Txtar Txtar.TxtarIndex Txtar.TxtarHolds.
+From GI Require Import Lib.Bytes Lib.Utf8 Lib.Utf8Go Lib.Utf8Trim Txtar.Txtar Txtar.TxtarIndex Txtar.TxtarHolds Txtar.QuoteIndex.
 Extraction Language OCaml.
 Extraction "extracted/txtar/model.ml" Byte.of_N Byte.to_N parse ref_parse format needs_quote quote unquote
   wf_archive utf8_valid trim_space split_lines
   parse_idx needs_quote_idx is_marker_idx find_file_marker_idx c03_holds_on c14_holds_on format_idx
   decode_rune decode_last_rune is_space_rune trim_left_runes trim_right_runes trim_space_runes
-  trim_left trim_right runes_ok encode_rune is_scalar trim_func trim_left_func trim_right_func.
+  trim_left trim_right runes_ok encode_rune is_scalar trim_func trim_left_func trim_right_func quote_idx unquote_idx decode_rune_tab.
